@@ -300,6 +300,13 @@ func (g *progGen) compStmt(depth int) *tw.Stmt {
 		vals = append(vals, val)
 		kinds[a] = k
 	}
+	if rapid.IntRange(0, 19).Draw(g.rt, "argNamedLoop") == 0 {
+		// the reserved name as an argument: it can be supplied this way no more than any other
+		at := rapid.IntRange(0, len(keys)).Draw(g.rt, "argNamedLoopAt")
+		keys = append(keys[:at], append([]string{"loop"}, keys[at:]...)...)
+		vals = append(vals[:at], append([]*tw.Expr{g.literalOf(rapid.SampledFrom([]refint.Kind{refint.KInt, refint.KStr, refint.KObj, refint.KNil}).Draw(g.rt, "argNamedLoopKind"))}, vals[at:]...)...)
+		g.Feat["arg-named-loop"]++
+	}
 	if len(keys) > 0 || rapid.Bool().Draw(g.rt, "emptyArgObj") {
 		st.Arg = tw.Obj(keys, vals)
 	}
